@@ -64,17 +64,20 @@ fn gen_update(r: &mut Rng, g: &SemGen, focus: &[String]) -> AdminOp {
     AdminOp::UpdateCurrency { name, rate }
 }
 
-fn probes(salt: u64, g: &SemGen) -> Vec<(String, String, Vec<String>)> {
+fn probes(salt: u64, g: &SemGen) -> Vec<(String, Stmt, Vec<String>)> {
     let mut r = Rng::new(salt ^ 0xC06);
     let mut v = Vec::new();
+    let money = |r: &mut Rng, code: &str, max: u64| -> Expr { Expr::Lit(Lit::Money(MoneyLit { n: NumLit::int(1 + r.below(max) as i64), code: code.to_string(), form: CurForm::WordAfter { word: code.to_lowercase(), space: true } })) };
     for _ in 0..6 {
         let a = g.rated_code(&mut r);
         let b = g.rated_code(&mut r);
-        v.push(("en".to_string(), format!("{} {} to {}", 1 + r.below(1000), a.to_lowercase(), b.to_lowercase()), vec![a, b]));
+        let e = Expr::ToCur { e: Box::new(money(&mut r, &a, 1000)), conn: Some("to".into()), word: b.to_lowercase(), code: b.clone() };
+        v.push(("en".to_string(), Stmt::Eval(e), vec![a, b]));
     }
     let a = g.rated_code(&mut r);
     let b = g.rated_code(&mut r);
-    v.push(("en".to_string(), format!("{} {} + {} {}", 1 + r.below(100), a.to_lowercase(), 1 + r.below(100), b.to_lowercase()), vec![a, b]));
+    let e = Expr::Bin { l: Box::new(money(&mut r, &a, 100)), op: '+', r: Box::new(money(&mut r, &b, 100)), tight: false };
+    v.push(("en".to_string(), Stmt::Eval(e), vec![a, b]));
     v
 }
 
